@@ -317,6 +317,8 @@ def eq_values(l, r):
             return wrap_bool(z3.And(*[sf.bits[m] == z3.BoolVal(m in other) for m in sf.bits]))
         return False
     if isinstance(l, SDateTime) and isinstance(r, SDateTime):
+        if bool(l.aware) != bool(r.aware):
+            return False                       # a naive and an aware datetime never compare equal
         return wrap_bool(z3.And(l.secs == r.secs, l.micros == r.micros))
     if isinstance(l, SAbs) and isinstance(r, SAbs) and l.kind == r.kind:
         return wrap_bool(l.term == r.term)
